@@ -824,6 +824,14 @@ func (x *c13) findDispatch() {
 			bad = "multi-segment names are not resolved from the starting scope"
 		}
 	}
+	// the downward lookup itself never falls back to Find (whose single-segment
+	// case searches the enclosing scopes)
+	if bad == "" {
+		gr := newIG(m, rel, nil)
+		if cs := gr.callNodes(find); len(cs) > 0 {
+			bad = "findRelative calls Find (" + gr.posOf(cs[0]) + "): a segment that must be looked up in the designated scope only is searched in the enclosing scopes as well"
+		}
+	}
 	c.check(bad == "", "C13.R4", "downward-only "+m.fnName(find), "absolute paths from the root, caret remainders and multi-segment names through findRelative only", bad, m.pos(find.Pos()))
 	// multi-segment case is guarded by len(expr) > amlNameLen; single segment by == amlNameLen
 	bad = ""
